@@ -300,6 +300,16 @@ def gen_bip():
 
 
 def generate():
+    try:
+        return _generate()
+    except Exception as ex:
+        # a refused translation must not leave the file generated from an OLDER source in place
+        vlib.write_if_changed(os.path.join(vlib.COQ, "Gen", "Gen_C19_gases.v"),
+                              "(* translator/c19_gen.py refused the current source: %s *)\n" % str(ex).replace("*)", "* )"))
+        raise
+
+
+def _generate():
     Lpr, extra_pr = gen_pr()
     Lcg = gen_pressures()
     extra_mb = gen_mb()
